@@ -660,7 +660,11 @@ func (f *c09ScriptFwd) ForwardDNS(ctx context.Context, data []byte) (*dnsmessage
 	call := &c09Call{l4: f.l4, data: append([]byte(nil), data...), release: make(chan c09Att, 1)}
 	f.w.mu.Lock()
 	f.w.calls = append(f.w.calls, call)
+	ch := f.w.callCh
 	f.w.mu.Unlock()
+	if ch != nil {
+		ch <- call
+	}
 	a := <-call.release
 	if a.timeout {
 		<-ctx.Done()
@@ -747,6 +751,7 @@ type c09Refresh struct {
 }
 
 type c09CtlWorld struct {
+	callCh  chan *c09Call // when non-nil every upstream exchange that starts is announced here (real-time tests)
 	ctrl    *DnsController
 	mu      sync.Mutex
 	calls   []*c09Call
@@ -1373,6 +1378,19 @@ func TestVerifC09Ctl(t *testing.T) {
 	stat.Write("c09ctl")
 }
 
+// c09RealBudget bounds the waits of the real-time (non-synctest) part on events the real code signals.
+// Its expiry is never evidence about the property: the round is counted as inconclusive.
+var c09RealBudget = c09BudgetFromEnv()
+
+// c09BudgetFromEnv: 90 s, or VERIF_C09_BUDGET_MS (only used to test that an expired budget is reported as
+// inconclusive and never as a violation).
+func c09BudgetFromEnv() time.Duration {
+	if ms := VEnvInt("VERIF_C09_BUDGET_MS", 0); ms > 0 {
+		return time.Duration(ms) * time.Millisecond
+	}
+	return 90 * time.Second
+}
+
 // c09UdpPath: the packet-send path (no ResponseWriter: Handle_ packs and sends through sendPkt).  k
 // clients with their own loopback sockets ask the same question under different IDs and spellings while
 // the upstream answer is withheld; the answer is alternately cacheable and not (NXDOMAIN), so both
@@ -1410,6 +1428,8 @@ func c09UdpPath(r *VRand, st *VStream, stat *VStats, routing *componentdns.Dns) 
 
 	w := newC09CtlWorld(st, stat, routing, false)
 	defer w.ctrl.Close()
+	callCh := make(chan *c09Call, 4096)
+	w.callCh = callCh
 	dnsForwarderFactory = func(up *componentdns.Upstream, da dialArgument, _ *logrus.Logger) (DnsForwarder, error) {
 		return &c09ScriptFwd{w: w, l4: da.l4proto}, nil
 	}
@@ -1435,7 +1455,13 @@ func c09UdpPath(r *VRand, st *VStream, stat *VStats, routing *componentdns.Dns) 
 			return true
 		})
 		nBefore := w.ncalls()
-		for i := 0; i < k; i++ {
+		ans := c09Att{resp: true, ans: 1 + r.Intn(900)}
+		if uncached {
+			ans.rcode, ans.ans = 3, 0
+		}
+		inconclusive := ""
+		var first *c09Call
+		for i := 0; i < k && inconclusive == ""; i++ {
 			c := &cl{conn: listen(), id: (1000*round + 37*i + 5) % 65536, sp: r.Intn(8), err: make(chan error, 1)}
 			cls = append(cls, c)
 			q := new(dnsmessage.Msg)
@@ -1444,51 +1470,75 @@ func c09UdpPath(r *VRand, st *VStream, stat *VStats, routing *componentdns.Dns) 
 			src := c.conn.LocalAddr().(*net.UDPAddr).AddrPort()
 			req := &udpRequest{realSrc: src, realDst: replyAddr, src: src, lConn: listenerConn, routingResult: &bpfRoutingResult{}}
 			go func() { c.err <- w.ctrl.Handle_(context.Background(), q, req) }()
-			if i == 0 { // the leader must be inside its upstream exchange before the others arrive
-				for d := 0; w.ncalls() == nBefore && d < 2000; d++ {
-					time.Sleep(time.Millisecond)
+			if i == 0 { // the leader is inside its upstream exchange (announced by the fake forwarder) before the others start
+				select {
+				case first = <-callCh:
+				case <-time.After(c09RealBudget):
+					inconclusive = "the leader did not reach its upstream exchange within the budget"
 				}
 			}
 		}
-		time.Sleep(15 * time.Millisecond) // followers reach sf.Do
-		a := c09Att{id: cls[0].id, q: fmt.Sprintf("%d.%d.%d", n, cls[0].sp, 1), resp: true, ans: 1 + r.Intn(900)}
-		if uncached {
-			a.rcode, a.ans = 3, 0
-		}
-		w.mu.Lock()
-		var call *c09Call
-		if len(w.calls) > nBefore {
-			call = w.calls[nBefore]
-		}
-		w.mu.Unlock()
-		if call == nil {
-			st.Emit(fmt.Sprintf("C udppath round=%d no upstream exchange started", round), "stuck")
-			continue
-		}
-		call.release <- a
-		for i, c := range cls {
-			want := fmt.Sprintf("id=%d,name=%d,qtype=1", c.id, n)
-			got := "no-reply"
-			buf := make([]byte, 2048)
-			_ = c.conn.SetReadDeadline(time.Now().Add(3 * time.Second))
-			if m, _, err := c.conn.ReadFromUDPAddrPort(buf); err == nil {
-				var msg dnsmessage.Msg
-				if msg.Unpack(buf[:m]) == nil && len(msg.Question) == 1 {
-					nn, _, _ := c09ParseName(msg.Question[0].Name)
-					got = fmt.Sprintf("id=%d,name=%d,qtype=%d", msg.Id, nn, msg.Question[0].Qtype)
-				} else {
-					got = "unparsable"
+		if inconclusive == "" {
+			time.Sleep(15 * time.Millisecond) // lets the followers reach sf.Do; only affects how many are coalesced
+			ans.id, ans.q = cls[0].id, fmt.Sprintf("%d.%d.%d", n, cls[0].sp, 1)
+			// answer the leader, and whoever arrives late enough to start an exchange of its own (a follower
+			// that had not reached sf.Do when the flight ended): every client gets an answer whatever the timing
+			stop, stopped := make(chan struct{}), make(chan struct{})
+			go func() {
+				defer close(stopped)
+				first.release <- ans
+				for {
+					select {
+					case c := <-callCh:
+						c.release <- ans
+					case <-stop:
+						return
+					}
 				}
+			}()
+			for i, c := range cls {
+				want := fmt.Sprintf("id=%d,name=%d,qtype=1", c.id, n)
+				// Handle_ sends the reply before it returns: wait for the return (real synchronisation), then read
+				select {
+				case <-c.err:
+				case <-time.After(c09RealBudget):
+					inconclusive = "Handle_ did not return within the budget"
+				}
+				if inconclusive != "" {
+					break
+				}
+				got := ""
+				buf := make([]byte, 2048)
+				_ = c.conn.SetReadDeadline(time.Now().Add(20 * time.Second))
+				if m, _, err := c.conn.ReadFromUDPAddrPort(buf); err == nil {
+					var msg dnsmessage.Msg
+					if msg.Unpack(buf[:m]) == nil && len(msg.Question) == 1 {
+						nn, _, _ := c09ParseName(msg.Question[0].Name)
+						got = fmt.Sprintf("id=%d,name=%d,qtype=%d", msg.Id, nn, msg.Question[0].Qtype)
+					} else {
+						got = "unparsable"
+					}
+				}
+				switch {
+				case got == "":
+					// no datagram: nothing was observed (loopback drop, error return) - not a statement about the reply
+					stat.Inc("ctl.udppath.no-datagram")
+				case got != want:
+					st.Emit(fmt.Sprintf("C udppath round=%d waiter=%d of %d uncached=%v want %s", round, i, k, uncached, want), got)
+				}
+				stat.Inc(fmt.Sprintf("ctl.udppath.reply.uncached=%v", uncached))
 			}
-			select {
-			case <-c.err:
-			case <-time.After(3 * time.Second):
-			}
-			if got != want {
-				st.Emit(fmt.Sprintf("C udppath round=%d waiter=%d of %d uncached=%v want %s", round, i, k, uncached, want), got)
-			}
-			stat.Inc(fmt.Sprintf("ctl.udppath.reply.uncached=%v", uncached))
+			close(stop)
+			<-stopped
+		}
+		for _, c := range cls {
 			c.conn.Close()
+		}
+		if inconclusive != "" {
+			// goroutines of this round may still be blocked in the controller: no further rounds on this controller
+			stat.Inc("ctl.udppath.inconclusive")
+			stat.Add("ctl.udppath.rounds-not-run", rounds-round-1)
+			break
 		}
 		stat.Add("ctl.udppath.coalesced", w.ncalls()-nBefore)
 	}
